@@ -167,7 +167,7 @@ def execute(case):
     # non-triviality classes
     cls = set()
     tick_times = {t for _, _, t in out}
-    if any(ta in tick_times for _, _, ta in arr):
+    if any(ta in tick_times and ta > 1000.0 for _, _, ta in arr):   # not the start instant
         cls.add("arrival-at-tick-instant")
     if any(x0 < ta < y0 for _, _, ta in arr for x0, y0 in busy):
         cls.add("arrival-while-consumer-busy")
